@@ -173,6 +173,15 @@ for (cls, npar, ns) in ALPHABET:
                     h.ensure("equiv=>same-mode-set", Implies(eq, same_set), finding="F6")
                     if cls in ("CXgate", "BSgate") and same_set and not same_order:
                         # order-sensitive unless the gate happens to be symmetric (CX(0), BS(pi/4, pi/2))
+                        if cls == "BSgate":
+                            # B(theta,phi) on (a,b) equals B(theta,phi) on (b,a) iff sin(theta)=0 or phi = pi/2 (mod pi)
+                            # (documented action a -> a cos - b e^{-i phi} sin); equivalence of swapped-order
+                            # beamsplitters is only sound for such gates (tolerance 1e-6 as for parameters)
+                            import numpy as _np
+                            r1 = ps1[1] % _np.pi
+                            r2 = ps2[1] % _np.pi
+                            h.ensure("equiv=>same-order-unless-symmetric",
+                                     Implies(eq, Or(abs(r1 - _np.pi / 2) <= 1e-4, abs(r2 - _np.pi / 2) <= 1e-4)))
                         if cls == "CXgate":
                             # CX(s) with |s| below the comparison tolerance is the identity up to that tolerance
                             symmetric = Or(abs(ps1[0]) <= 1e-8, abs(ps2[0]) <= 1e-8)
